@@ -21,17 +21,21 @@ def setup():
         run_all.run_all()
     except Exception as e:  # a broken extractor must not prevent building the rest
         print('setup: extractor problem (reported by the owning check later): %s' % e)
+    import importlib
     import json
-    rc, out = core.lake(['build'], timeout=7200)
-    print(out[-3000:])
-    if rc != 0:
-        print('setup: lake build (library) returned %d' % rc)
     with open(os.path.join(ROOT, 'MANIFEST.json')) as f:
         man = json.load(f)
-    drivers = sorted({('drv_' + c['property_id'].lower()) for c in man['checks']})
-    rc2, out2 = core.lake(['build'] + drivers, timeout=7200)
-    print(out2[-2000:])
-    return 0 if rc == 0 and rc2 == 0 else 1
+    bad = 0
+    for c in man['checks']:
+        pid = c['property_id']
+        mod = importlib.import_module('harness.props.' + pid.lower())
+        targets = list(mod.PROOF_MODULES) + [getattr(mod, 'DRIVER', 'drv_' + pid.lower())]
+        rc, out = core.lake(['build'] + targets, timeout=7200)
+        print('setup: %s lake build %s -> %d' % (pid, ' '.join(targets), rc))
+        if rc != 0:
+            bad += 1
+            print(out[-2000:])
+    return 0 if bad == 0 else 1
 
 
 def main():
